@@ -263,7 +263,7 @@ theorem defAt_run {P : Prog} {fuel : Nat} (ops : List Op) {S : State} {fid : Nat
   | nil => exact h
   | cons op ops ih => exact ih (defAt_step op h)
 
-/-! ## the F7 fix: captured lists copied at every activation -/
+/-! ## captured lists copied at every activation (the code since the repair of F7) -/
 
 theorem compile_policy {P : Prog} {fuel : Nat} {d : FuncDef} {c : Compiled} (h : compile P fuel d = .ok c) : c.policy = P.policy := by
   unfold compile at h
@@ -396,15 +396,25 @@ theorem step_preserves_fixed {P : Prog} {fuel : Nat} (hπ : P.policy.copyCapture
     · exact ⟨hS, hR⟩
 
 theorem run_preserves_fixed {P : Prog} {fuel : Nat} (hπ : P.policy.copyCaptured = true) (ops : List Op) {S : State}
-    (hS : CacheOK P fuel S) (hR : ResultsOK P fuel S) : CacheOK P fuel (run P fuel S ops) := by
+    (hS : CacheOK P fuel S) (hR : ResultsOK P fuel S) :
+    CacheOK P fuel (run P fuel S ops) ∧ ResultsOK P fuel (run P fuel S ops) := by
   induction ops generalizing S with
-  | nil => exact hS
+  | nil => exact ⟨hS, hR⟩
   | cons op ops ih =>
     obtain ⟨h1, h2⟩ := step_preserves_fixed hπ hS hR op
     exact ih h1 h2
 
 theorem resultsOK_init (P : Prog) (fuel : Nat) : ResultsOK P fuel State.init := by
   intro p hp; simp [State.init] at hp
+
+/-- with per-activation copies the observation of a call does not depend on the history (any module) -/
+theorem history_independent_of_copy (P : Prog) (fuel : Nat) (hπ : P.policy.copyCaptured = true) (h : List Op)
+    (fid : Nat) (d : FuncDef) (hd : P.defs[fid]? = some d) (args : List Tree) (ctx : Option Ctx) :
+    (step P fuel (run P fuel State.init h) (.call fid args ctx)).2 = some (pureCall P fuel d args ctx) :=
+  step_call_obs (run_preserves_fixed hπ h (cacheOK_init P fuel) (resultsOK_init P fuel)).1 fid args ctx (defAt_of_defs _ hd)
+
+theorem current_copies {P : Prog} (hπ : P.policy = Policy.current) : P.policy.copyCaptured = true := by
+  rw [hπ]; rfl
 
 /-- no cell survives a call: nothing captured holds a list, or captured lists are copied per activation -/
 def NoSharedCells (P : Prog) : Prop := NoCapturedLists P ∨ P.policy.copyCaptured = true
@@ -546,6 +556,35 @@ theorem tstep_preserves {P : Prog} {fuel : Nat} (hP : NoSharedCells P) {cache : 
     have : r = seqResult P fuel t := by simpa [ThreadOK, hpc] using ht
     show r = seqResult P fuel _
     rw [seqResult_congr]; exact this
+
+/-- the schedule theorem in its general form: from any cache whose entries are compilations of their
+definitions and any threads whose program counters hold what the sequential call would hold, under
+`NoSharedCells` (no captured list, or per-activation copies) -/
+theorem schedule_independent_from (P : Prog) (fuel : Nat) (hP : NoSharedCells P) (sched : List Nat) :
+    ∀ (cache : List (Nat × Compiled)) (ts : List Thread), TCacheOK P fuel cache → (∀ t ∈ ts, ThreadOK P fuel t) →
+      TCacheOK P fuel (runSchedule P fuel cache ts sched).1 ∧
+      ∀ t ∈ (runSchedule P fuel cache ts sched).2, ∀ r, t.pc = .done r → r = seqResult P fuel t := by
+  induction sched with
+  | nil =>
+    intro cache ts hc hts
+    refine ⟨hc, ?_⟩
+    intro t ht r hr
+    have := hts t ht
+    simpa [ThreadOK, hr] using this
+  | cons i rest ih =>
+    intro cache ts hc hts
+    simp only [runSchedule]
+    cases hi : ts[i]? with
+    | none => exact ih cache ts hc hts
+    | some t =>
+      simp only
+      have ht : ThreadOK P fuel t := hts t (List.mem_of_getElem? hi)
+      obtain ⟨h1, h2, _, _, _⟩ := tstep_preserves hP hc ht
+      apply ih _ _ h1
+      intro t' ht'
+      rcases List.mem_or_eq_of_mem_set ht' with h | h
+      · exact hts t' h
+      · exact h ▸ h2
 
 /-! ## progress of the thread machine -/
 
